@@ -35,6 +35,11 @@ FRAGMENTS = [
          "row_index[2] = (sb_row + (sb_row == (dec_mt_frame_data->sb_rows - 1) ? 0 : 1)) * tiles_info->tile_cols;"),
     (PP, "if (sb_row != 0) { dec_save_lf_boundary_lines_sb_row( dec_handle, tile_rect_p, sb_row - 1, src, stride, num_planes); "
          "/* Update LF done map */ dec_mt_frame_data1->lf_row_map[sb_row - 1] = 1; }"),
+    # the LF row gate itself (model: lfGate = recon rows r-1, r, r+1 complete in EVERY tile column); seeded change C09-2 dropped one `+ i`
+    (PP, "while ((!start_lf[0]) || (!start_lf[1]) || (!start_lf[2])) { start_lf[0] = 1; start_lf[1] = 1; start_lf[2] = 1; "
+         "for (int i = 0; i < tiles_info->tile_cols; i++) { start_lf[0] &= dec_mt_frame_data->sb_recon_row_map[row_index[0] + i]; "
+         "start_lf[1] &= dec_mt_frame_data->sb_recon_row_map[row_index[1] + i]; "
+         "start_lf[2] &= dec_mt_frame_data->sb_recon_row_map[row_index[2] + i]; } }"),
     (PP, "int32_t offset = sb_row == dec_mt_frame_data->sb_rows - 1 ? 0 : 1;"),
     (PP, "(volatile int32_t *)&dec_mt_frame_data->lf_row_map[sb_row + offset]; while (!*start_cdef) ;"),
     (PP, "dec_mt_frame_data1->cdef_completed_for_row_map[sb_row] = 1;"),
